@@ -865,3 +865,205 @@ M.contract('exactly_lib.impls.actors.program.execution:Executor._resolve_stdin',
                     len(program_stdin) == old},
            old=lambda program_stdin: len(program_stdin),
            raises_only=())
+
+
+# ============================================================================== the outcome is captured
+
+from exactly_lib.execution.partial_execution.impl import atc_execution
+from exactly_lib.execution.result import ActionToCheckOutcome, ExecutionFailureStatus, PhaseStepFailureException
+from exactly_lib.test_case.result.eh import ExitCodeOrHardError
+from exactly_lib.test_case.phases.act.execution_input import AtcExecutionInput
+from exactly_lib.test_case.phases.act.actor import ActionToCheck
+from exactly_lib.test_case.app_env import ApplicationEnvironment
+
+P_ATC = 'exactly_lib.execution.partial_execution.impl.atc_execution'
+
+# --- file system with ghost links: an open file knows the path it was opened from
+
+OPEN = 'path.open'
+WRITE = 'file.write'
+
+
+def _path_open(interp, self, args, kwargs):
+    mode = args[0] if args else kwargs.get('mode', 'r')
+    interp.st.emit(OPEN, self, mode)
+    return new_opaque(interp, FileCtxI, self._pv_uid + '.open()', preset={'g_path': self, 'g_mode': mode})
+
+
+def _ctx_enter(interp, self, args, kwargs):
+    return new_opaque(interp, FileI, self._pv_uid + '.file', preset={'g_path': self._pv_attrs['g_path']})
+
+
+FileI.attrs = {'g_path': Any_}
+FileCtxI.attrs = {'g_path': Any_, 'g_mode': Any_}
+FileCtxI.methods = dict(FileCtxI.methods, __enter__=Method(model=_ctx_enter))
+FsPathI.methods = dict(FsPathI.methods, open=Method(model=_path_open), chmod=Method())
+FileCtxI.methods['read'] = Method(returns=Str, event='file.read')      # `f = path.open()` used without `with`
+FileCtxI.methods['close'] = Method()
+
+
+def opened(trace):
+    """(path, mode) of every file opened on this path, in order"""
+    return [(e[1], e[2]) for e in trace if e[0] == OPEN]
+
+
+def written(trace):
+    """(path of the file, text) of every write on this path, in order"""
+    return [(e[1].g_path, e[2][0]) for e in trace if e[0] == WRITE]
+
+
+class ResultDirI(Interface):
+    attrs = {'exitcode_file': Iface(FsPathI), 'stdout_file': Iface(FsPathI), 'stderr_file': Iface(FsPathI)}
+
+
+class SdsI(Interface):
+    attrs = {'result': Iface(ResultDirI)}
+    methods = {'relative_to_sds_root': Method(returns=Any_)}
+
+
+class TcdsI(Interface):
+    attrs = {'sds': Iface(SdsI), 'hds': Any_}
+
+
+ATC_EXECUTE = 'atc.execute'
+EXIT_CODE_OR_HARD_ERROR = Union(Inst(ExitCodeOrHardError, _tuple=[Int, Const(None)]),
+                                Inst(ExitCodeOrHardError, _tuple=[Const(None), Any_]))
+
+
+class ActionToCheckI(Interface):
+    """the action to check made by the actor (the actors' `execute` are verified in C19_timeouts / below)"""
+    target_class = ActionToCheck
+    methods = {'execute': Method(returns=EXIT_CODE_OR_HARD_ERROR, event=ATC_EXECUTE,
+                                 params=['environment', 'os_services', 'atc_input', 'output'])}
+
+
+ATC_INPUT_RESOLVE = 'atc_input.resolve'
+
+
+class AtcInputAdvI(Interface):
+    methods = {'resolve': Method(returns=Inst(AtcExecutionInput, _tuple=[Opt(STRING_SOURCE), Opt(Any_)]),
+                                 event=ATC_INPUT_RESOLVE),
+               'validate': Method(returns=Opt(Any_))}
+
+
+class InstrEnvI(Interface):
+    """an InstructionEnvironmentForPostSdsStep, as far as the ATC executor uses it"""
+    attrs = {'tcds': Iface(TcdsI), 'proc_exe_settings': SETTINGS, 'mem_buff_size': Nat,
+             'tmp_dir__path_access': Iface(lambda: TmpFileStorageI)}
+
+
+class TmpFileStorageI(Interface):
+    attrs = {'paths_access': Iface(DirFileSpaceI), 'root_dir__existing': Iface(FsPathI)}
+
+
+OUTPUT_FILES = Inst(StdOutputFiles, _tuple=[Any_, Any_])
+
+
+def _mk_atc_executor(interp, name):
+    x = object.__new__(atc_execution.ActionToCheckExecutor)
+    x.atc = new_opaque(interp, ActionToCheckI, name + '.atc')
+    x.environment_for_validate_post_setup = new_opaque(interp, InstrEnvI, name + '.env_vps')
+    x.environment_for_other_steps = new_opaque(interp, InstrEnvI, name + '.env')
+    x.os_services = new_opaque(interp, OsServicesI, name + '.os_services')
+    x.tcds = new_opaque(interp, TcdsI, name + '.tcds')
+    x.atc_input = new_opaque(interp, AtcInputAdvI, name + '.atc_input')
+    x.exe_atc_and_skip_assertions = Opt(OUTPUT_FILES).make(interp, name + '.exe_atc_and_skip_assertions')
+    x._atc_outcome = None
+    return x
+
+
+ATC_EXECUTOR = Custom(_mk_atc_executor)
+
+
+def result_files(self):
+    return self.tcds.sds.result
+
+
+M.contract(P_ATC + ':ActionToCheckExecutor._store_exit_code', inline=True,
+           params=dict(self=ATC_EXECUTOR, exitcode=Int),
+           ensures={'result/exit-code is (re)written with exactly the decimal text of the exit code':
+                    lambda self, exitcode, trace:
+                    opened(trace) == [(result_files(self).exitcode_file, 'w')]
+                    and len(written(trace)) == 1 and written(trace)[0][0] is result_files(self).exitcode_file
+                    and written(trace)[0][1] == str(exitcode)},
+           raises_only=())
+
+M.contract(P_ATC + ':ActionToCheckExecutor._register_outcome', inline=True,
+           params=dict(self=ATC_EXECUTOR, exit_code_or_hard_error=EXIT_CODE_OR_HARD_ERROR),
+           ensures={
+               'exit code: it is the registered outcome, and it is stored in result/exit-code (unless assertions are '
+               'skipped)': lambda self, exit_code_or_hard_error, trace:
+               (not exit_code_or_hard_error[0] is not None)
+               or (type(self._atc_outcome) is ActionToCheckOutcome
+                   and self._atc_outcome[0] == exit_code_or_hard_error[0]
+                   and (written(trace) == [] if self.exe_atc_and_skip_assertions is not None else
+                        (len(written(trace)) == 1 and written(trace)[0][0] is result_files(self).exitcode_file
+                         and written(trace)[0][1] == str(exit_code_or_hard_error[0])))),
+               'hard error: no outcome, nothing stored': lambda self, exit_code_or_hard_error, trace:
+               (not exit_code_or_hard_error[0] is None) or (self._atc_outcome is None and written(trace) == []),
+           }, raises_only=())
+
+
+def atc_executions(trace):
+    return [e[2] for e in trace if e[0] == ATC_EXECUTE]
+
+
+def atc_results(trace):
+    return [e[2] for e in trace if e[0] == ATC_EXECUTE + ':returned']
+
+
+M.contract(P_ATC + ':ActionToCheckExecutor._do_execute_w_output_files', inline=True,
+           params=dict(self=ATC_EXECUTOR, output=OUTPUT_FILES),
+           ensures={
+               'the ATC is executed once: environment of the step, OS services, the resolved act-phase input, the '
+               'given output files': lambda self, output, trace:
+               len(atc_executions(trace)) == 1
+               and atc_executions(trace)[0][0] is self.environment_for_other_steps
+               and atc_executions(trace)[0][1] is self.os_services
+               and atc_executions(trace)[0][2] is [e[2] for e in trace if e[0] == ATC_INPUT_RESOLVE + ':returned'][0]
+               and atc_executions(trace)[0][3] is output,
+               'returns what the ATC returned': lambda result, trace: result is atc_results(trace)[0],
+               'the exit code stored and registered is the one returned': lambda self, result, trace:
+               (result[0] is None and self._atc_outcome is None and written(trace) == [])
+               or (result[0] is not None and self._atc_outcome[0] == result[0]
+                   and (self.exe_atc_and_skip_assertions is not None
+                        or written(trace) == [(result_files(self).exitcode_file, str(result[0]))])),
+           }, raises_only=())
+
+M.contract('exactly_lib.util.file_utils.misc_utils:make_file_read_only__p', inline=True,
+           params=dict(path=Iface(FsPathI)), ensures={'returns': lambda result: result is None}, raises_only=())
+
+M.contract(P_ATC + ':ActionToCheckExecutor._do_execute',
+           params=dict(self=ATC_EXECUTOR), returns=EXIT_CODE_OR_HARD_ERROR,
+           ensures={
+               'stdout/stderr given to the ATC are result/stdout and result/stderr, opened for writing (or the files '
+               'of the act-output reporter when assertions are skipped)': lambda self, trace:
+               len(atc_executions(trace)) == 1
+               and ((atc_executions(trace)[0][3] is self.exe_atc_and_skip_assertions)
+                    if self.exe_atc_and_skip_assertions is not None else
+                    (atc_executions(trace)[0][3].out.g_path is result_files(self).stdout_file
+                     and atc_executions(trace)[0][3].err.g_path is result_files(self).stderr_file
+                     and opened(trace)[0] == (result_files(self).stdout_file, 'w')
+                     and opened(trace)[1] == (result_files(self).stderr_file, 'w'))),
+               'returns what the ATC returned; exit code registered': lambda self, result, trace:
+               result is atc_results(trace)[0]
+               and ((result[0] is None and self._atc_outcome is None)
+                    or (result[0] is not None and self._atc_outcome[0] == result[0])),
+           }, raises_only=())
+
+
+# --- the exit-code assertion reads what was stored
+
+from exactly_lib.impls.instructions.assert_.process_output.impl.exit_code import getter_from_atc
+
+M.contract('exactly_lib.impls.instructions.assert_.process_output.impl.exit_code.getter_from_atc:_ExitCodeGetter._get_exit_code',
+           params=dict(self=Inst(getter_from_atc._ExitCodeGetter, _tcds=Iface(TcdsI), _sds=Iface(SdsI))),
+           ghosts=dict(n=Int), returns=Int,
+           ensures={
+               'reads result/exit-code': lambda self, trace: opened(trace) == [(self._sds.result.exitcode_file, 'r')],
+               'round trip: if the file holds str(n) -- what _store_exit_code wrote -- the assertion sees n':
+                   lambda result, trace, n:
+                   (not ([e[2] for e in trace if e[0] == 'file.read:returned'][0] == str(n))) or result == n,
+           },
+           raises={HardErrorException: {}},
+           raises_only=())
